@@ -228,6 +228,8 @@ def compare_name(pl: str, pns: Any, dns: Any, name: str, label: str, full: str, 
             res['violations'].append(core.violation(f'invented/{pl}' + ('' if pl in NEGATIVE else f'/{label}{extra_sig}'), f'pydoctor documents {name} in a namespace where CPython binds nothing:\n{full}', case))
         return
     if dobj is None:
+        if pl == 'main-else':
+            label = 'any-definition'      # one structural cause whatever is defined there: the else clause of the main guard is not walked
         res['violations'].append(core.violation(f'missing/{pl}/{label}{extra_sig}', f'CPython binds {name} ({pk[0]}) but pydoctor documents nothing:\n{full}', case))
         return
     if label.startswith('presence:'):
